@@ -49,6 +49,24 @@ C05Ok(k, es, rs, img) ==
                  /\ Slice(img, pos, it.w) = W(rs[it.ref], it.w)                    \* the handle, verbatim
                  /\ \E m \in 1..Len(w.ents) : w.ents[m].off = Val(rs[it.ref]) /\ w.ents[m].type \in it.ty
 
+\* histories with Default-built entries (type and own length zero: no walk): offsets from the reference entry sizes
+C05OkRef(k, es, rs, img) ==
+  LET offs == EntryOffsets(k, es, rs)
+      ai == AddIdx(es)
+  IN \A n \in 1..Len(ai) :
+       LET j == ai[n] e == es[j] IN
+       /\ (rs[j] # <<>> => Small(rs[j]) /\ Val(rs[j]) = offs[n])
+       /\ ~IsDefault(e) =>
+            LET lay == EntryLay(e, rs) items == RefItems(e) IN
+            \A q \in 1..Len(items) :
+              LET it == items[q] IN
+              it.ref # 0 =>
+                LET pos == offs[n] + ChunkOff(lay, CHOOSE i \in 1..Len(lay) : lay[i].n = it.chunk) + it.k IN
+                /\ In(img, pos, it.w)
+                /\ Slice(img, pos, it.w) = W(rs[it.ref], it.w)
+                /\ \E m \in 1..Len(ai) : /\ offs[m] = Val(rs[it.ref]) /\ es[ai[m]].op \in DOMAIN HandleType
+                                          /\ HandleType[es[ai[m]].op] \in it.ty
+
 ---------------------------------------------------------------------------
 \* C12: matrix regions of the observed image against the last-writer maps of the specification
 SllbiIdx(es) == SelectSeq([j \in 1..Len(es) |-> j], LAMBDA j : es[j].op = "add_system_locality")
@@ -141,6 +159,6 @@ P_C02(k, img) == LET o == IF k = "RSDP" THEN 20 ELSE 4 IN Len(img) >= o + 4 /\ S
 P_C03(k, c, es, rs, img, ref) ==
   /\ k \in WalkKinds => LET w == Walk(k, img) wr == Walk(k, ref) IN w.ok /\ w.summary /\ Shape(w) = Shape(wr)
   /\ k = "SLIT" => SlitOk(img) /\ R16(img, 36) = c.n
-P_C05(k, es, rs, img) == k \in {"PPTT", "RHCT", "RIMT", "VIOT"} => C05Ok(k, es, rs, img)
+P_C05(k, es, rs, img) == k \in {"PPTT", "RHCT", "RIMT", "VIOT"} => IF HasDefaults(es) THEN C05OkRef(k, es, rs, img) ELSE C05Ok(k, es, rs, img)
 P_C12(k, c, es, rs, img) == k \in {"SLIT", "HMAT"} => (C12Ok(k, c, es, rs, img) /\ Sum8(img) = 0)
 =============================================================================
